@@ -748,7 +748,10 @@ class SSHTransportBase(protocol.Protocol):
             # only in '\n'.
             # https://tools.ietf.org/html/rfc4253#section-4.2
             lines = self.buf.split(b"\n")
-            for p in lines:
+            # Only complete lines are candidates (the last element is what
+            # follows the last newline), and only the first version line
+            # counts: what follows it is binary packet data.
+            for i, p in enumerate(lines[:-1]):
                 if p.startswith(b"SSH-"):
                     self.gotVersion = True
                     # Since the line was split on '\n' and most of the time
@@ -758,8 +761,8 @@ class SSHTransportBase(protocol.Protocol):
                     if remoteVersion not in self.supportedVersions:
                         self._unsupportedVersionReceived(remoteVersion)
                         return
-                    i = lines.index(p)
                     self.buf = b"\n".join(lines[i + 1 :])
+                    break
             if not self.gotVersion:
                 # Only lines preceding the version string (RFC 4253 section
                 # 4.2) have arrived so far; they are not binary packets.
